@@ -15,7 +15,7 @@
    events are what reqwest/hyper/tokio deliver, persist is one step by the kernel's rename
    atomicity, a concurrently writing second process is outside the model. *)
 (* C12's names (run, step, outcome, ..) must not shadow C16.Model's: C12 is loaded FIRST and always written with its full name *)
-From RM Require C12.Model C12.Proofs.
+From RM Require C12.Model C12.Proofs C12.FileModel C12.FileProofs.
 From RM Require Import C09.Grammar C10.Model C16.Model C16.Proofs C16.Rehit C16.Driver C16.Shared C16.SharedProofs C16.SharedProofs2 C16.Refine Gen.C16Ops.
 From RM Require C09.Model C10.Stream C16.Stream C16.StreamProofs C16.StreamInst C16.StreamProofs2 C16.StreamPins C16.StaleFlag C16.Raii C16.RaiiProofs C16.StreamRefine C16.LocateSrc Gen.C16Locate C16.StreamRaii C16.StreamRaiiProofs C16.InProcess C16.FileFetch C16.FileFetchProofs C16.FileFetchSrc C16.FileRaii C16.FileRaiiProofs.
 Open Scope Z_scope.
@@ -785,6 +785,36 @@ Proof.
   intros. split; [apply RM.C16.InProcess.process_is_one_lookup|apply RM.C16.InProcess.process_requests_prefix].
 Qed.
 Print Assumptions c16_process_is_one_lookup.
+
+(* ... and for files: HttpSymbolSupplier keeps a slot per (module, kind) in front of its fetch closure; C12/FileModel.v + FileProofs.v:
+   the closure runs at most once per file key under every schedule (c12_files_at_most_once).  One run of the closure is one
+   [locate_file] of C16/FileFetch.v: the process does to the servers and the cache what ONE locate_file does, or nothing — the
+   c16_file_ theorems hold for the process as a whole. *)
+Theorem c16_process_file_is_one_lookup :
+  forall (p : path) (locals : list bool) (ss : list server) (evs_of : nat -> list event)
+         (fc : C12.FileModel.fconfig) (sched : list C12.Model.task) (fk : C12.FileModel.fkey) (f : fs),
+  let pr := RM.C16.InProcess.process_file p locals ss evs_of fc sched fk f in
+  let one := RM.C16.FileFetch.locate_file p f locals ss (evs_of 0%nat) in
+  pr = ([], f) \/ pr = (RM.C16.FileFetch.q_log one, RM.C16.FileFetch.q_fs one).
+Proof. intros. apply RM.C16.InProcess.process_file_is_one_lookup. Qed.
+Print Assumptions c16_process_file_is_one_lookup.
+
+(* non-vacuity: C12's example configuration (three tasks, file keys (0,KBin) / (0,KDbg) / (1,KBin), two servers) under its schedule: the
+   closure of (0, KBin) has run once; the process' effect on the servers and the cache is the one download: request log [3; 5], entry *)
+Example c16_nonvacuous_process_file :
+  let fc := C12.FileModel.Build_fconfig
+              [[(0%nat, C12.FileModel.KBin); (0%nat, C12.FileModel.KDbg)]; [(0%nat, C12.FileModel.KDbg); (1%nat, C12.FileModel.KBin)]; [(0%nat, C12.FileModel.KBin)]]
+              (fun _ => false)
+              (fun fk => match fk with (1%nat, C12.FileModel.KBin) => false | _ => true end)
+              [fun fk => (1%nat, match fk with (0%nat, C12.FileModel.KDbg) => true | _ => false end);
+               fun fk => (2%nat, match fk with (0%nat, C12.FileModel.KBin) => true | _ => false end)] in
+  let sched := [0; 1; 2; 2; 1; 0; 0; 1; 2; 0; 1; 2; 0]%nat in
+  let ss := [mkserver 3 [] ex_senv; mkserver 5 [] ex_senv] in
+  let evs := [EHead 404; EHead 200; EChunk [1; 2; 3]; EChunk [4; 5]; EEof] in
+  let pr := RM.C16.InProcess.process_file 7 [] ss (fun _ => evs) fc sched (0%nat, C12.FileModel.KBin) ex_sfs in
+  C12.Model.supplier_calls (C12.Model.run (C12.FileModel.to_config fc) sched) (C12.FileModel.enc (0%nat, C12.FileModel.KBin)) = 1%nat /\
+  fst pr = [3; 5] /\ cache (snd pr) 7 = Some (File [1; 2; 3; 4; 5]) /\ tmp (snd pr) = [].
+Proof. vm_compute. repeat split; reflexivity. Qed.
 
 (* non-vacuity: two tasks look the same module (key 0) up at the same time, the supplier future suspends twice; under the schedule
    [0;1;0;1;0;1;1] the supplier has been called once, and the process' effect is that of the one lookup: the request went to
